@@ -482,7 +482,7 @@ class ThrottleStreamIO(StreamIO):
             if curr_throttle.limit:
                 tasks.append(asyncio.create_task(curr_throttle.wait()))
         if tasks:
-            await asyncio.wait(tasks)
+            await asyncio.gather(*tasks)
 
     def append(self, name, data, start):
         """
